@@ -774,6 +774,224 @@ Proof.
   - exists base. split; [reflexivity | apply smem_false, E].
 Qed.
 
+
+(* ------------------------------------------------------------------------ *)
+(* 12. The dry run does not touch the file                                    *)
+(* ------------------------------------------------------------------------ *)
+Definition sm (s s' : wst) : Prop := w_file s' = w_file s.
+Lemma sm_refl s : sm s s. Proof. reflexivity. Qed.
+Lemma sm_trans s1 s2 s3 : sm s1 s2 -> sm s2 s3 -> sm s1 s3.
+Proof. unfold sm. intros A B. rewrite B, A. reflexivity. Qed.
+Ltac sm_same := reflexivity.
+
+Section DryRun.
+Variable m : mode.
+Hypothesis Hdry : m_dry m = true.
+
+Lemma sm_create_dim n z s : sm s (create_dim m n z s).
+Proof. unfold create_dim. rewrite Hdry. reflexivity. Qed.
+Lemma sm_create_var v s : sm s (create_var m v s).
+Proof. unfold create_var. rewrite Hdry. reflexivity. Qed.
+Lemma sm_set_created_ref n a l s : sm s (set_created_ref m n a l s).
+Proof. unfold set_created_ref. rewrite Hdry. reflexivity. Qed.
+
+Lemma sm_set_err s : sm s (set_err s).
+Proof. sm_same. Qed.
+
+
+
+
+
+
+
+Lemma sm_netcdf_name b s : sm s (snd (netcdf_name b s)).
+Proof.
+  unfold netcdf_name. destruct (smem b (existing s)).
+  - destruct (first_free _ _ _ _); simpl; [sm_same | apply sm_set_err].
+  - simpl. sm_same.
+Qed.
+
+Lemma sm_write_var n dims c attrs refs s : sm s (write_var m n dims c attrs refs s).
+Proof.
+  unfold write_var. eapply sm_trans; [|apply sm_create_var]. sm_same.
+Qed.
+
+Lemma sm_write_bounds k c cd cv s : sm s (snd (write_bounds m k c cd cv s)).
+Proof.
+  unfold write_bounds. destruct (c_bnd c) as [b|]; [|apply sm_refl].
+  set (size := last (b_shape b) 0%Z).
+  destruct (find _ (w_bdims s)) as [d|].
+  - (* existing bounds dimension *)
+    destruct (find_seen _ _ _ s) as [e0|]; simpl; [sm_same|].
+    match goal with |- context [netcdf_name ?b ?s0] => pose proof (sm_netcdf_name b s0) as Hn;
+      destruct (netcdf_name b s0) as [bv s3] eqn:En end. simpl in *.
+    eapply sm_trans; [|sm_same].
+    eapply sm_trans; [|apply sm_write_var].
+    eapply sm_trans; [|exact Hn].
+    destruct (negb _); [|apply sm_refl].
+    eapply sm_trans; [|apply sm_create_dim]. sm_same.
+  - match goal with |- context [netcdf_name ?b ?s0] => pose proof (sm_netcdf_name b s0) as Hn0;
+      destruct (netcdf_name b s0) as [n0 s0'] eqn:En0 end. simpl in Hn0.
+    destruct (find_seen _ _ _ _) as [e0|]; simpl.
+    + eapply sm_trans; [exact Hn0|]. eapply sm_trans; [|sm_same]. sm_same.
+    + match goal with |- context [netcdf_name ?b ?s0] => pose proof (sm_netcdf_name b s0) as Hn;
+        destruct (netcdf_name b s0) as [bv s3] eqn:En end. simpl in *.
+      eapply sm_trans; [|sm_same].
+      eapply sm_trans; [|apply sm_write_var].
+      eapply sm_trans; [|exact Hn].
+      eapply sm_trans; [exact Hn0|].
+      eapply sm_trans; [|]. 2:{ destruct (negb _); [|apply sm_refl].
+                                 eapply sm_trans; [|apply sm_create_dim]. sm_same. }
+      sm_same.
+Qed.
+
+Ltac with_name_sm :=
+  match goal with |- context [netcdf_name ?b ?s0] =>
+    let H := fresh "Hn" in let E := fresh "En" in
+    pose proof (sm_netcdf_name b s0) as H; destruct (netcdf_name b s0) eqn:E; simpl in H end.
+
+Ltac with_bounds_sm :=
+  match goal with |- context [write_bounds ?m ?k ?c ?cd ?cv ?s0] =>
+    let H := fresh "Hb" in let E := fresh "Eb" in
+    pose proof (sm_write_bounds k c cd cv s0) as H; destruct (write_bounds m k c cd cv s0) eqn:E; simpl in H end.
+
+Lemma sm_dimcoord_name ax k c s : sm s (snd (dimcoord_name m ax k c s)).
+Proof.
+  unfold dimcoord_name. destruct (fx_dimname (m_var m)).
+  - destruct (a_ncdim ax); destruct (k_ncvar k); try destruct (name_of k c None); apply sm_netcdf_name.
+  - destruct (name_of k c None); [apply sm_netcdf_name|].
+    destruct (a_ncdim ax); [apply sm_refl | apply sm_netcdf_name].
+Qed.
+
+Lemma sm_write_dimcoord ax k c s : sm s (snd (write_dimcoord m ax k c s)).
+Proof.
+  unfold write_dimcoord.
+  destruct (match find_seen false c None s with Some e => _ | None => None end) as [r|];
+    [simpl; apply sm_refl|].
+  pose proof (sm_dimcoord_name ax k c s) as Hn.
+  destruct (dimcoord_name m ax k c s) as [nv s1]. simpl in Hn. with_bounds_sm. simpl.
+  eapply sm_trans; [exact Hn|]. eapply sm_trans; [|apply sm_write_var].
+  eapply sm_trans; [|exact Hb]. eapply sm_trans; [|apply sm_create_dim]. sm_same.
+Qed.
+
+Lemma sm_write_scalar k c s : sm s (snd (write_scalar m k c s)).
+Proof.
+  unfold write_scalar. destruct (find_seen _ _ _ s); [simpl; apply sm_refl|].
+  with_name_sm. with_bounds_sm. simpl.
+  eapply sm_trans; [exact Hn|]. eapply sm_trans; [|apply sm_write_var]. exact Hb.
+Qed.
+
+Lemma sm_write_aux k d s : sm s (snd (write_aux m k d s)).
+Proof.
+  unfold write_aux. destruct (find_seen _ _ _ s); [simpl; apply sm_refl|].
+  with_name_sm. with_bounds_sm. simpl.
+  eapply sm_trans; [exact Hn|]. eapply sm_trans; [|apply sm_write_var]. exact Hb.
+Qed.
+
+Lemma sm_write_anc k d df s : sm s (snd (write_anc m k d df s)).
+Proof.
+  unfold write_anc. destruct (find_seen _ _ _ s); [simpl; apply sm_refl|].
+  with_name_sm. with_bounds_sm. simpl.
+  eapply sm_trans; [exact Hn|]. eapply sm_trans; [|apply sm_write_var]. exact Hb.
+Qed.
+
+Lemma sm_write_msr k d s : sm s (snd (write_msr m k d s)).
+Proof.
+  unfold write_msr. destruct (find_seen _ _ _ s); [simpl; apply sm_refl|].
+  with_name_sm. simpl. eapply sm_trans; [exact Hn|]. apply sm_write_var.
+Qed.
+
+Lemma sm_write_axis f dims i ax x s : sm s (snd (write_axis m f dims i ax (x, s))).
+Proof.
+  unfold write_axis. destruct (dim_for i dims 0) as [[p k]|].
+  - destruct (nmem i (f_daxes f)).
+    + pose proof (sm_write_dimcoord ax k (k_c k) s) as H.
+      destruct (write_dimcoord m ax k (k_c k) s) as [[nv nd] s1]. exact H.
+    + pose proof (sm_write_scalar k (k_c k) s) as H.
+      destruct (write_scalar m k (k_c k) s) as [nv s1]. exact H.
+  - destruct (nmem i (f_daxes f)); [|apply sm_refl].
+    destruct (if match spanning f i with [] => false | _ => true end then _ else None);
+      [simpl; apply sm_refl|].
+    with_name_sm. simpl. eapply sm_trans; [exact Hn|].
+    eapply sm_trans; [|apply sm_create_dim]. sm_same.
+Qed.
+
+Lemma sm_write_axes f dims axs : forall i x s, sm s (snd (write_axes m f dims i axs (x, s))).
+Proof.
+  induction axs as [|ax r IH]; intros i x s; cbn [write_axes snd]; [apply sm_refl|].
+  pose proof (sm_write_axis f dims i ax x s) as H.
+  destruct (write_axis m f dims i ax (x, s)) as [x1 s1]. simpl in H.
+  eapply sm_trans; [exact H | apply IH].
+Qed.
+
+Lemma sm_write_auxs x l : forall acc s, sm s (snd (write_auxs m x l acc s)).
+Proof.
+  induction l as [|k r IH]; intros acc s; cbn [write_auxs snd]; [apply sm_refl|].
+  pose proof (sm_write_aux k (dims_of x (k_axes k)) s) as H.
+  destruct (write_aux m k (dims_of x (k_axes k)) s) as [nv s1]. simpl in H.
+  eapply sm_trans; [exact H | apply IH].
+Qed.
+
+Lemma sm_write_ancs f x l : forall p acc s, sm s (snd (write_ancs m f x l p acc s)).
+Proof.
+  induction l as [|k r IH]; intros p acc s; cbn [write_ancs snd]; [apply sm_refl|].
+  pose proof (sm_write_anc k (dims_of x (k_axes k)) (anc_default f p) s) as H.
+  destruct (write_anc m k (dims_of x (k_axes k)) (anc_default f p) s) as [nv s1]. simpl in H.
+  eapply sm_trans; [exact H | apply IH].
+Qed.
+
+Lemma sm_write_msrs x l : forall acc s, sm s (snd (write_msrs m x l acc s)).
+Proof.
+  induction l as [|k r IH]; intros acc s; cbn [write_msrs snd]; [apply sm_refl|].
+  pose proof (sm_write_msr k (dims_of x (k_axes k)) s) as H.
+  destruct (write_msr m k (dims_of x (k_axes k)) s) as [nv s1]. simpl in H.
+  eapply sm_trans; [exact H | apply IH].
+Qed.
+
+Lemma sm_write_formula f dims x av s : sm s (write_formula m f dims x av s).
+Proof.
+  unfold write_formula. destruct (f_ref f) as [r|]; [|apply sm_refl].
+  destruct (nth_error dims (r_owner r)) as [ko|]; [|apply sm_refl].
+  destruct (option_eqb _ _ _); [|apply sm_refl].
+  destruct (ft_terms _ _ _ _ _) as [|t ts]; [apply sm_refl|].
+  destruct (lookup_nat _ _) as [ov|]; [|apply sm_refl].
+  destruct (negb (m_post m) || fx_formula (m_var m)).
+  - destruct (assoc ov (w_bnds s)).
+    + eapply sm_trans; apply sm_set_created_ref.
+    + apply sm_set_created_ref.
+  - destruct (assoc ov (w_bnds s)); apply sm_refl.
+Qed.
+
+Lemma sm_write_field f s : sm s (write_field m f s).
+Proof.
+  unfold write_field. destruct (add_csn f) as [dims bad].
+  set (s0 := if bad then set_err s else s).
+  assert (H0 : sm s s0) by (unfold s0; destruct bad; [apply sm_set_err | apply sm_refl]).
+  pose proof (sm_write_axes f dims (f_axes f) 0
+                {| x_a2d := []; x_dimvar := []; x_coords := []; x_span := [] |} s0) as H1.
+  destruct (write_axes m f dims 0 (f_axes f) _) as [x s1]. simpl in H1.
+  pose proof (sm_write_auxs x (f_aux f) (x_coords x) s1) as H2.
+  destruct (write_auxs m x (f_aux f) (x_coords x) s1) as [coords s2]. simpl in H2.
+  pose proof (sm_write_ancs f x (f_anc f) 0 [] s2) as H3.
+  destruct (write_ancs m f x (f_anc f) 0 [] s2) as [ancvars s3]. simpl in H3.
+  pose proof (sm_write_msrs x (f_msr f) [] s3) as H4.
+  destruct (write_msrs m x (f_msr f) [] s3) as [msrs s4]. simpl in H4.
+  pose proof (sm_write_formula f dims x ancvars s4) as H5.
+  with_name_sm.
+  eapply sm_trans; [exact H0|]. eapply sm_trans; [exact H1|]. eapply sm_trans; [exact H2|].
+  eapply sm_trans; [exact H3|]. eapply sm_trans; [exact H4|]. eapply sm_trans; [exact H5|].
+  eapply sm_trans; [exact Hn|]. eapply sm_trans; [apply sm_create_var|]. sm_same.
+Qed.
+
+Lemma sm_write_fields fs : forall s, sm s (write_fields m fs s).
+Proof.
+  unfold write_fields. induction fs as [|f r IH]; intro s; simpl; [apply sm_refl|].
+  eapply sm_trans; [apply sm_write_field | apply IH].
+Qed.
+
+
+End DryRun.
+
 (* ------------------------------------------------------------------------ *)
 (* 11. The old fields are still read: an invariant of the appending pass     *)
 (* ------------------------------------------------------------------------ *)
@@ -1219,20 +1437,25 @@ Proof.
   destruct H as [H1 H2 H3 H4 H5]. constructor; auto.
 Qed.
 
+Lemma dry_run_file vr e orig : w_file (dry_run vr e orig) = e.
+Proof.
+  unfold dry_run. change (w_file (write_fields (dry_mode vr) orig (log [EOpenR] (init e))) = e).
+  rewrite (sm_write_fields (dry_mode vr) eq_refl orig (log [EOpenR] (init e))). reflexivity.
+Qed.
+
 Lemma covers_inv vr e orig : covers vr e orig = true -> Inv e (dry_run vr e orig).
 Proof.
   unfold covers. set (s := dry_run vr e orig). intro H.
-  apply andb_true_iff in H as [H _]. apply andb_true_iff in H as [H Hlen].
+  apply andb_true_iff in H as [H _].
   apply andb_true_iff in H as [H Hb]. apply andb_true_iff in H as [Hn Hs].
   rewrite forallb_forall in Hn, Hs, Hb.
-  destruct (proj1 (le_dry_run vr e orig) e (ext_init e)) as (_ & [vv Hv] & _ & Hc). fold s in Hv, Hc.
+  destruct (proj1 (le_dry_run vr e orig) e (ext_init e)) as (_ & _ & _ & Hc). fold s in Hc.
   constructor.
   - intros n Hin. apply smem_In, Hn, Hin.
   - intros en Hin. apply smem_false, negb_true_iff, Hs, Hin.
   - intros p Hin. apply smem_false, negb_true_iff, Hb, Hin.
   - exact Hc.
-  - exists vv. split; [exact Hv|]. apply Nat.eqb_eq in Hlen. rewrite Hv, app_length in Hlen.
-    destruct vv; [intros w [] | simpl in Hlen; lia].
+  - exists []. unfold s. rewrite dry_run_file. split; [symmetry; apply app_nil_r | intros w []].
 Qed.
 
 Lemma covers_dims vr e orig v d :
